@@ -334,7 +334,9 @@ def finalStatesEqual (h : List Ev) : Option String :=
     configuration entry of its own term only once an entry of its own term is committed -/
 def configGated (h : List Ev) : Option String :=
   h.findSome? (fun e => match e with
-    | .sample srv _ _ term 2 commit _ own ncfg ncfgOwn _ _ _ =>
+    | .sample srv _ _ term 2 commit _ own ncfg ncfgOwn _ _ lo =>
+        -- `own` is the leader's first own-term entry only while the log still reaches below it
+        if !(lo > 0 && lo < own) && own != 0 then none else
         -- (a restarted server does not know what is committed: only configurations of the leader's
         -- own term are certainly its own doing, and once its no-op is committed they are all there is)
         if ncfgOwn > 1 || (ncfgOwn ≥ 1 && commit ≥ own && ncfg > ncfgOwn) then some s!"leader-{srv}-of-term-{term}-holds-{ncfg}-uncommitted-configurations"
